@@ -593,6 +593,15 @@ def _judge_scaled(j: _Judge, sv: Any, sysname: str, ksign: str, want: list[Any],
     back = j.guarded(key, lambda: sv.rebase(cart))
     if back is not None:
         j.vec_equals(key, "scale_vector(k, v).rebase(cartesian)", back.components, want, env, scale)
+    # two-step history: magnitude (and self dot product) of the SCALED curvilinear vector vs the Cartesian truth |k| |v|
+    from symplyphysics.core.vectors.arithmetics import dot_vectors, vector_magnitude
+    mkey = f"magnitude-after-scale:{sysname}:{ksign}"
+    mag = j.guarded(mkey, lambda: vector_magnitude(sv))
+    if mag is not None:
+        j.scalar_equals(mkey, "vector_magnitude(scale_vector(k, v))", mag, MP.sqrt(m_dot3(want, want)), env, scale)
+    dd = j.guarded(mkey, lambda: dot_vectors(sv, sv))
+    if dd is not None:
+        j.scalar_equals(mkey, "dot_vectors(scale_vector(k, v), scale_vector(k, v))", dd, m_dot3(want, want), env, scale * scale)
 
 
 # ------------------------------------------------------------------------------------------------
